@@ -76,7 +76,15 @@ func runSolver(s solverCfg, file string, ms int) (verdict, out string, secs floa
 	_ = cmd.Run()
 	secs = time.Since(t0).Seconds()
 	out = buf.String()
-	first := strings.TrimSpace(strings.SplitN(out, "\n", 2)[0])
+	first := ""
+	for _, ln := range strings.Split(out, "\n") {
+		ln = strings.TrimSpace(ln)
+		if ln == "" || strings.HasPrefix(ln, "WARNING") || strings.HasPrefix(ln, "(warning") {
+			continue
+		}
+		first = ln
+		break
+	}
 	switch first {
 	case "unsat", "sat":
 		verdict = first
